@@ -5,3 +5,4 @@ import CG.Sem
 import CG.Ops
 import CG.Order
 import CG.Lint
+import CG.Api
